@@ -272,7 +272,10 @@ impl ValveProtocol {
                 Some(ModData {
                     link: buffer.read_string::<Utf8Decoder>(None)?,
                     download_link: buffer.read_string::<Utf8Decoder>(None)?,
-                    version: buffer.read()?,
+                    version: {
+                        buffer.read::<u8>()?; // NULL byte
+                        buffer.read()?
+                    },
                     size: buffer.read()?,
                     multiplayer_only: buffer.read::<u8>()? == 1,
                     has_own_dll: buffer.read::<u8>()? == 1,
